@@ -207,7 +207,7 @@ def parse_kani_log(text):
 class Harness:
     def __init__(self, name, module, overlay="e1", desc="", bounds="", functions=(), covers=(),
                  flags=(), timeout=600, mem_gb=16, tier="quick", props=(), assumptions=(),
-                 replay="playback", known=None, crate="lib", thorough_props=()):
+                 replay="playback", known=None, crate="lib", thorough_props=(), best_effort=False):
         self.name = name            # function name of the #[kani::proof]
         self.module = module        # rust module path that contains `verif_kani` (e.g. "msgpack")
         self.overlay = overlay
@@ -221,6 +221,9 @@ class Harness:
         self.tier = tier
         self.props = list(props)
         self.thorough_props = list(thorough_props)  # properties this query serves in the thorough tier only
+        # best effort: a timeout / out-of-memory run of this query is recorded in the evidence as
+        # "not completed" but does not make the check fail (a violation still does)
+        self.best_effort = best_effort
         self.assumptions = list(assumptions)
         self.replay = replay
         self.known = known
